@@ -12,16 +12,15 @@ import (
 	"golang.org/x/tools/go/ssa/ssautil"
 )
 
-const (
-	verifDir = "/verif"
-	modPath  = "github.com/yandex/mysync"
-)
+const modPath = "github.com/yandex/mysync"
 
-// repoDir / harnessDir can be redirected (development aid: trying a harness or a
-// mutant in a scratch copy). Registered checks always use the defaults.
+// repoDir / verifDir / harnessDir can be redirected (development aid: trying a harness or a
+// mutant in a scratch copy, running a long sweep from a snapshot of /verif). Registered
+// checks always use the defaults.
 var (
+	verifDir   = envOr("VERIF_DIR", "/verif")
 	repoDir    = envOr("VERIF_REPO", "/repo")
-	harnessDir = envOr("VERIF_HARNESS", "/verif/harness")
+	harnessDir = envOr("VERIF_HARNESS", verifDir+"/harness")
 )
 
 func envOr(k, def string) string {
